@@ -161,7 +161,7 @@ class UClient(Client):
             if o:
                 s = self._add(self._forget(s, o), [('L', o)]) or s
         elif callee is not None and callee.get('name', '').startswith(SVB + '::') and sn not in ('isSmall', 'size', 'capacity', 'begin', 'end', 'dynStorage', 'get_allocator', 'canSwapDynStorage') \
-                and not callee.get('constm'):
+                and not (n.get('constm') or callee.get('constm')):
             # a mutating member of the base may change the state of its object (and of a vector passed by reference)
             o = _objname(n.get('obj'), self.linit) if n.get('method') else None
             if o:
